@@ -1,14 +1,16 @@
 """Fail-closed translator: `$VERIF_REPO/src/superrec2/utils/disjoint_set.py` -> `coq/Gen/DsuGen.v`.
 
 The methods `__init__` (generated name `gen_dsu_init`), `find` (`gen_dsu_find`), `unite`
-(`gen_dsu_unite`), `__len__` (`gen_dsu_len`) and `to_list` (`gen_dsu_to_list`) of the class
+(`gen_dsu_unite`), `__len__` (`gen_dsu_len`), `to_list` (`gen_dsu_to_list`) and `binary`
+(`gen_dsu_binary`, with its local function `_binary` as `gen_dsu_binary_aux`) of the class
 `DisjointSet` are translated statement by statement by `translator/pyfun.py` (see its docstring
-for the handled subset and the shape of the output); `__repr__` and `binary` are not translated.
+for the handled subset and the shape of the output); `__repr__` is not translated.
 The object is the record `dsu_state` of its attributes `parent`, `rank`, `groups`; `__init__`
 returns `res dsu_state`, every other method `res (dsu_state * result)`.  This driver only supplies
 what cannot be read off the source: the type of every variable and attribute, and the fuel of the
 recursion of `find` on itself.  `coq/Proofs/DsuGenProofs.v` proves the generated functions equal
-to the hand-written model `coq/Model/DisjointSet.v` for all states and arguments.  Any construct
+to the hand-written model `coq/Model/DisjointSet.v` for all states and arguments
+(`coq/Proofs/DsuBinaryGenProofs.v` for `binary`).  Any construct
 outside the subset, a definition missing or made twice, or a variable without a declared type
 raises `TranslatorAbort` with file:line.  The output file is rewritten only when its content changes.
 
@@ -19,6 +21,19 @@ such ints; `groups` is an int (`Z`, it is decremented); `unite` returns a bool.
 Fuel of `find`: one more than the largest rank -- the measure `Model/DisjointSet.v` uses, so the
 equality with the model is unconditional and `Proofs/DisjointSetProofs.v` (ranks strictly increase
 towards the roots on every reachable state) shows `OutOfFuel` is never returned there.
+
+`binary` (pyfun's ninth extension; emitted after the other methods, in a Section `Binary`, so that the
+text before it is unchanged): `_binary` takes a `DisjointSet` (objects are values: the record),
+`groups: list N`, `first` / `second: option N` and returns a newly built `list DisjointSet`; its fuel is
+`S (length groups)` (it calls itself on `groups[1:]`; the proof shows this never runs out).
+`deepcopy(partition)` is the value `partition` (a `DisjointSet` holds two lists of ints and an int, and
+defines no `__deepcopy__` / `__copy__` / `__reduce__`: the class body is checked to consist of method
+definitions none of which changes attribute access -- ASSUMPTION: `copy.deepcopy` of such an object is an
+object with equal attributes sharing nothing with it).  The order of
+`list(set(self.find(i) for i in range(len(self.parent))))` is the Section variable
+`ord : list N -> list N`, applied to the list of the representatives found, in order, duplicates
+included: CPython's set iteration order is a function of the inserted sequence; the theorems hold for
+every `ord`.  The list returned holds the objects by value, as they are when `binary` returns.
 """
 from __future__ import annotations
 
@@ -45,7 +60,15 @@ DSU = ClassSpec("DisjointSet", "dsu", {"parent": "list N", "rank": "list N", "gr
 ])
 
 
-def render(repo: Path) -> str:
+BINARY_AUX = FunSpec("_binary", {"partition": "DisjointSet", "groups": "list N", "first": "option N", "second": "option N",
+                                 "part_1": "DisjointSet", "part_2": "DisjointSet",
+                                 "results_1": "list DisjointSet", "results_2": "list DisjointSet"},
+                     "list DisjointSet", alias="dsu_binary_aux", rec_fuel="S (length groups)", fresh=True)
+BINARY = FunSpec("binary", {"i": "N"}, "list DisjointSet", alias="dsu_binary")
+
+
+def build(repo: Path):
+    """(the translation unit, the text of the generated file)"""
     path = repo.joinpath(*SOURCE)
     if not path.is_file():
         raise TranslatorAbort(f"{path}:0: source file not found")
@@ -53,9 +76,18 @@ def render(repo: Path) -> str:
         tree = ast.parse(path.read_text(encoding="utf8"), filename=str(path))
     except SyntaxError as e:
         raise TranslatorAbort(f"{path}:{e.lineno}: syntax error: {e.msg}")
-    unit = Unit(path, tree)
+    unit = Unit(path, tree, extended=True)
+    unit.use_containers()
+    unit.use_tables(section_vars=["ord"])
+    unit.use_seventh()
+    unit.use_ninth({"list N": "ord"})
     parts = [unit.klass(DSU)]
-    return "\n".join([
+    parts.append("Section Binary.\n\n(* the order in which Python iterates the set built from the given items (inserted in list order) *)\n"
+                 "Variable ord : list N -> list N.")
+    parts.append(unit.local_function("DisjointSet", "binary", BINARY_AUX))
+    parts.append(unit.method("DisjointSet", BINARY))
+    parts.append("End Binary.")
+    return unit, "\n".join([
         "(* GENERATED by translator/dsu_gen.py (via translator/pyfun.py) from",
         "   src/superrec2/utils/disjoint_set.py -- do not edit.  Statement-by-statement translation:",
         "   an assignment is a shadowing [let], the statements after an [if] are a continuation [k'n],",
@@ -70,6 +102,10 @@ def render(repo: Path) -> str:
         unit.prelude(),
         "\n\n".join(parts),
     ]) + "\n"
+
+
+def render(repo: Path) -> str:
+    return build(repo)[1]
 
 
 def regenerate(repo: Optional[Path] = None, out: Path = OUT) -> bool:
